@@ -11,7 +11,7 @@
 typedef struct { const char *op; int w; int kind; } opw;
 enum { K_HOLD = 1, K_TADD, K_TSET, K_TCANCEL, K_TCLEAR, K_YIELD, K_INTR, K_STOP, K_PRIO, K_RESUME, K_START, K_WAITP, K_WAITE,
        K_SCHEV, K_CANEV, K_EXIT, K_STOPSELF, K_ACQ, K_REL, K_PRE, K_PACQ, K_PPRE, K_PREL, K_BPUT, K_BGET, K_QPUT, K_QGET,
-       K_KPUT, K_KGET, K_KCAN, K_KREP, K_CWAIT, K_CSIG, K_SETVAR, K_CCAN, K_CREM, K_GCAN, K_GREM, K_RECON, K_RECOFF, K_BLOCK_RES, K_BLOCK_POOL, K_REPORT, K_OBS };
+       K_KPUT, K_KGET, K_KCAN, K_KREP, K_CWAIT, K_CSIG, K_SETVAR, K_CCAN, K_CREM, K_GCAN, K_GREM, K_RECON, K_RECOFF, K_BLOCK_RES, K_BLOCK_POOL, K_REPORT, K_OBS, K_WAITT };
 
 static int cfg_has(const char *cfg, const char *key, const char *val)
 {
@@ -212,6 +212,7 @@ void procs_gen(plan *p, uint64_t seed, const char *cfg)
     ADD("INTR", 4 * wf, K_INTR); ADD("STOP", 2 * wf, K_STOP); ADD("PRIO", 3 * wf + (pmode ? 2 : 0), K_PRIO);
     ADD("START", 1 * wf, K_START); ADD("EXIT", 1, K_EXIT); ADD("STOPSELF", wf ? 1 : 0, K_STOPSELF);
     ADD("WAITP", m_wait ? 7 : 2, K_WAITP);
+    ADD("WAITT", m_wait ? 4 : 1, K_WAITT);
     if (nhev) { ADD("WAITE", 5, K_WAITE); ADD("SCHEV", 2, K_SCHEV); ADD("CANEV", wf, K_CANEV); }
     if (nres) { ADD("ACQ", 14, K_ACQ); ADD("REL", 10, K_REL); ADD("PRE", 4 * (wf ? wf : 1), K_PRE); ADD("BLOCKRES", 10, K_BLOCK_RES); }
     if (npool) { ADD("PACQ", 14, K_PACQ); ADD("PREL", 10, K_PREL); ADD("PPRE", 5 * (wf ? wf : 1), K_PPRE); ADD("BLOCKPOOL", 8, K_BLOCK_POOL); }
@@ -254,6 +255,7 @@ void procs_gen(plan *p, uint64_t seed, const char *cfg)
                 case K_EXIT: plan_add(p, "EXIT", 1, I); emitted = ns; break;
                 case K_STOPSELF: plan_add(p, "STOPSELF", 1, I); emitted = ns; break;
                 case K_WAITP: plan_add(p, "WAITP", 2, I, j); break;
+                case K_WAITT: plan_add(p, "WAITT", 3, I, j, (int64_t)vrng_below(&r, 4)); break;
                 case K_WAITE: plan_add(p, "WAITE", 2, I, (int64_t)vrng_below(&r, (uint64_t)nhev)); break;
                 case K_SCHEV: plan_add(p, "SCHEV", 4, I, (int64_t)vrng_below(&r, (uint64_t)nhev), g_dt(&r, tmode), g_prio(&r, pmode)); break;
                 case K_CANEV: plan_add(p, "CANEV", 2, I, (int64_t)vrng_below(&r, (uint64_t)nhev)); break;
